@@ -546,6 +546,10 @@ def c_next(a, b):
     other = next((x for x in [a, b] if ev(('test', x)) > 3), a)
     return first, other
 
+def c_next_ret(a, b):
+    cands = (a + s for s in (0, 1, 2))
+    return next((ev(('hit', x)) for x in cands if x > b), None)
+
 def c_meth(v, a):
     return K(v).caller_m(a)
 
@@ -604,7 +608,7 @@ def main():
         'c_plain': itertools.product(vals, vals), 'c_withifexp': [(v,) for v in vals],
         'c_alias': [(None, v) for v in vals],
         'c_copy': itertools.product(vals, vals), 'c_copy_later': itertools.product(vals, vals), 'c_copy_loop': itertools.product(vals, vals),
-        'c_copy_swap': itertools.product(vals, vals), 'c_run': itertools.product(vals, vals), 'c_next': itertools.product(vals, vals), 'c_run_swapped': itertools.product(vals, vals),
+        'c_copy_swap': itertools.product(vals, vals), 'c_run': itertools.product(vals, vals), 'c_next': itertools.product(vals, vals), 'c_next_ret': itertools.product(vals, vals), 'c_run_swapped': itertools.product(vals, vals),
         'c_rng_swapped': itertools.product(vals, vals), 'c_closure': itertools.product(vals, vals), 'c_try_rest': [(v,) for v in vals], 'c_try_ret': [(v,) for v in vals], 'c_try_norets': [(v,) for v in vals], 'c_rng_self': itertools.product(vals, vals),
     }
     bad = 0
